@@ -620,11 +620,28 @@ HCancelAw(a) ==
   /\ cur' = HT(a)
   /\ UNCHANGED <<nev, ev, q, shut, hist, running, idle, semv, depth, lockq, nact, nx, xh>>
 HCancelExit(a) ==
-  /\ a <= nact /\ task[HT(a)].pc = "cancelled" /\ task[HT(a)].aw = 0 /\ cur \in {NoTask, HT(a)}
+  /\ a <= nact /\ task[HT(a)].pc = "cancelled" /\ task[HT(a)].aw = 0 /\ cur \in {NoTask, HT(a)} /\ task[HT(a)].out # "cl"
   /\ o' = Obs(Line("HExit") @@ [act |-> a, out |-> "cancel"], ev, nev, hist, q)
   /\ task' = [task EXCEPT ![HT(a)].pc = "done", ![HT(a)].out = "cancel", ![task[HT(a)].owner].pc = "hdone"]
   /\ cur' = NoTask
   /\ UNCHANGED <<nev, ev, q, unf, shut, hist, running, idle, semv, depth, lockq, nact, nx, xh>>
+\* a handler with awaited clean-up (try / finally with awaits; scenario op `cl`, kept in `out` while it runs): after the cancellation it
+\* goes on for a while (timed sleep) before its task really ends; whoever cancelled it waits for that
+HSetCleanup(a) ==
+  /\ cur = HT(a) /\ task[HT(a)].pc = "ops" /\ task[HT(a)].bud > 0 /\ WithSleep /\ task[HT(a)].out = ""
+  /\ task' = [task EXCEPT ![HT(a)].bud = @ - 1, ![HT(a)].out = "cl"]
+  /\ UNCHANGED <<nev, ev, q, unf, shut, hist, running, idle, semv, depth, lockq, nact, nx, xh, cur, o>>
+HCleanupBegin(a) ==
+  /\ a <= nact /\ task[HT(a)].pc = "cancelled" /\ task[HT(a)].aw = 0 /\ cur \in {NoTask, HT(a)} /\ task[HT(a)].out = "cl"
+  /\ o' = Obs(Line("HOp") @@ [act |-> a, op |-> "cleanup"], ev, nev, hist, q)
+  /\ task' = [task EXCEPT ![HT(a)].pc = "cleanup"]
+  /\ cur' = NoTask
+  /\ UNCHANGED <<nev, ev, q, unf, shut, hist, running, idle, semv, depth, lockq, nact, nx, xh>>
+HCleanupEnd(a) ==
+  /\ cur = NoTask /\ a <= nact /\ task[HT(a)].pc = "cleanup"
+  /\ o' = Obs(Line("HExit") @@ [act |-> a, out |-> "cancel"], ev, nev, hist, q)
+  /\ task' = [task EXCEPT ![HT(a)].pc = "done", ![HT(a)].out = "cancel", ![task[HT(a)].owner].pc = "hdone"]
+  /\ UNCHANGED <<nev, ev, q, unf, shut, hist, running, idle, semv, depth, lockq, nact, nx, xh, cur>>
 
 \* tail of process_event (WAL off): mark complete, walk up the parents, history cleanup (probe line ProcE)
 XTasksOf(t) == {k \in 1..nx : task[XT(k)].owner = t /\ task[XT(k)].pc # "free"}
@@ -994,7 +1011,7 @@ NextCore ==
   \/ \E t \in Tasks : SyncFinish(t, "ret") \/ SyncFinish(t, "raise") \/ SyncReturn(t) \/ (\E b \in B : \E ty \in Range(Types) : SyncDispatch(t, b, ty))
   \/ \E t \in Tasks : ParStart(t) \/ OwnerAbandon(t) \/ TimeoutFire(t)
   \/ \E t \in Tasks : WalBegin(t) \/ WalClose(t) \/ (\E f \in BOOLEAN : WalOpen(t, f) \/ WalWrite(t, f))
-  \/ \E a \in 1..MaxAct : HCancelAw(a) \/ HCancelExit(a)
+  \/ \E a \in 1..MaxAct : HCancelAw(a) \/ HCancelExit(a) \/ HSetCleanup(a) \/ HCleanupBegin(a) \/ HCleanupEnd(a)
   \/ \E k \in 1..MaxAct : XStart(k) \/ XEnd(k) \/ XAbandon(k)
   \/ \E t \in Tasks : PCancelWake(t)
   \/ \E t \in Tasks : FwdReturn(t) \/ OwnerAbort(t) \/ ProcSelect(t) \/ OwnerNext(t) \/ OwnerResume(t) \/ OwnerTail(t) \/ OwnerEpilogue(t)
